@@ -13,10 +13,13 @@
 //   neb     Nebula: tokens signed with the key of a Nebula host certificate issued by a local Nebula CA
 //   k8sSA-default  Kubernetes service account tokens signed with a local key
 //   jwkwh   JWK with an ENRICHING and an AUTHORIZING webhook served by the local server (answer per case)
+//   awsdcs / aws  AWS instance identity (built by authority.ProvisionerToCertificates from the admin-database
+//           form; disableCustomSANs true / false), tokens carry locally signed identity documents
 //   acme    ACME: no token; the harness does what acme.Order.Finalize does around the signer
 package main
 
 import (
+	"bytes"
 	"context"
 	"crypto"
 	"crypto/ecdsa"
@@ -51,7 +54,12 @@ import (
 	"go.step.sm/crypto/randutil"
 	"go.step.sm/crypto/x509util"
 
+	"github.com/go-chi/chi/v5"
+	"github.com/smallstep/linkedca"
+
+	"github.com/smallstep/certificates/api"
 	"github.com/smallstep/certificates/authority"
+	"github.com/smallstep/certificates/authority/config"
 	"github.com/smallstep/certificates/authority/provisioner"
 	c "verif/harness/common"
 	"verif/harness/fixture"
@@ -64,6 +72,7 @@ type ExtJ struct {
 
 type Case struct {
 	NebHost int    // nebula: which host certificate of nebHosts signs the token
+	Via     string // "" = Authorize + Sign in-process, "api" = POST /1.0/sign through the real router and handler
 	RA      bool   // serve the request from the authority in RA mode (stepcas in front of the issuing CA)
 	WHE     string // jwkwh: answer of the enriching webhook: allow | deny   (with WHData as returned data)
 	WHA     string // jwkwh: answer of the authorizing webhook: allow | deny
@@ -122,18 +131,39 @@ func tri(b *bool) string {
 // authority-level claims (authority.claims in ca.json), one embedded authority each
 var authClaims = []BC{
 	{},
+	{Ex: bp(true)}, // odd index: provisioners go through the admin-database form
 	{DR: bp(true)},
-	{Ex: bp(true)},
 	{Ex: bp(false), DR: bp(true), AE: bp(true)},
 	{Ex: bp(true), DR: bp(false)},
 	{AE: bp(true)},
 	{DR: bp(false), Ex: bp(false), AE: bp(false)},
 	{DR: bp(true), AE: bp(true)},
+	{Ex: bp(true), DR: bp(true)}, // adminIdx: this authority runs with enableAdmin (provisioners migrated to and loaded from the admin database)
+}
+
+const adminIdx = 8
+
+// roundTrip sends a provisioner of the ca.json form through the admin-database form and back
+// (authority.ProvisionerToLinkedca, authority.ProvisionerToCertificates): what the authority does with
+// provisioners kept in the admin database. Authorities with an odd index get their provisioners this way.
+func roundTrip(p provisioner.Interface) provisioner.Interface {
+	l, err := authority.ProvisionerToLinkedca(p)
+	if err != nil {
+		panic(fmt.Sprintf("ProvisionerToLinkedca(%s): %v", p.GetName(), err))
+	}
+	q, err := authority.ProvisionerToCertificates(l)
+	if err != nil {
+		panic(fmt.Sprintf("ProvisionerToCertificates(%s): %v", p.GetName(), err))
+	}
+	if a, ok := p.(*provisioner.AWS); ok {
+		q.(*provisioner.AWS).IIDRoots = a.IIDRoots
+	}
+	return q
 }
 
 // the provisioners' own claims
 var provClaims = map[string]BC{
-	"jwk": {}, "jwktpl": {}, "x5c": {}, "oidc": {}, "nebula": {}, "k8ssa": {}, "acme": {}, "jwkwh": {},
+	"jwk": {}, "jwktpl": {}, "x5c": {}, "oidc": {}, "nebula": {}, "k8ssa": {}, "acme": {}, "jwkwh": {}, "aws": {}, "awsdcs": {},
 	"jwkdis": {Ex: bp(true)},
 	"jwkc1":  {Ex: bp(false)},
 	"jwkc2":  {DR: bp(true)},
@@ -179,6 +209,46 @@ type env struct {
 	whEnrich, whAuthz string
 	whData            int
 	ra                *raEnv
+	routers           []http.Handler // per authority: the real api routes
+	awsKey            *rsa.PrivateKey
+	awsRoots          string
+	awsSeq            int
+	awsSub            string // subject of the AWS token minted last
+}
+
+const awsIP, awsRegion = "10.0.0.5", "us-east-1"
+
+func awsDNS() string { return "ip-" + strings.ReplaceAll(awsIP, ".", "-") + "." + awsRegion + ".compute.internal" }
+
+// awsProv: an AWS provisioner as the authority builds it from the admin-database form
+// (authority.ProvisionerToCertificates); IIDRoots, which is not part of that form, is set afterwards
+func (e *env) awsProv(name string, disableCustomSANs, disableTOFU bool) provisioner.Interface {
+	p, err := authority.ProvisionerToCertificates(&linkedca.Provisioner{
+		Type: linkedca.Provisioner_AWS, Name: name,
+		Details: &linkedca.ProvisionerDetails{Data: &linkedca.ProvisionerDetails_AWS{AWS: &linkedca.AWSProvisioner{
+			Accounts: []string{"123456789012"}, DisableCustomSans: disableCustomSANs, DisableTrustOnFirstUse: disableTOFU}}},
+	})
+	if err != nil {
+		panic(err)
+	}
+	p.(*provisioner.AWS).IIDRoots = e.awsRoots
+	return p
+}
+
+// post sends a JSON body to the authority's real router (api.Route under / and /1.0) the way ca.CA
+// serves it: the authority travels in the request context.
+func (e *env) post(idx int, ca *fixture.CA, path string, body any) *httptest.ResponseRecorder {
+	b, _ := json.Marshal(body)
+	return e.postRaw(idx, ca, path, b)
+}
+
+func (e *env) postRaw(idx int, ca *fixture.CA, path string, b []byte) *httptest.ResponseRecorder {
+	req := httptest.NewRequest("POST", path, bytes.NewReader(b))
+	req.Header.Set("Content-Type", "application/json")
+	req = req.WithContext(authority.NewContext(req.Context(), ca.Auth))
+	rec := httptest.NewRecorder()
+	e.routers[idx].ServeHTTP(rec, req)
+	return rec
 }
 
 // data an enriching webhook may return: it is stored under .Webhooks.<name> of the template data
@@ -301,12 +371,22 @@ func newEnv() (*env, error) {
 	ca0.Close()
 	pemNeb, hosts := newNebula()
 	e.nebHosts = hosts
+	e.awsKey = must(rsa.GenerateKey(rand.Reader, 2048))
+	awsTpl := &x509.Certificate{SerialNumber: big.NewInt(1), Subject: pkix.Name{CommonName: "verif aws iid"},
+		NotBefore: time.Now().Add(-time.Hour), NotAfter: time.Now().Add(240 * time.Hour)}
+	awsDER := must(x509.CreateCertificate(rand.Reader, awsTpl, awsTpl, &e.awsKey.PublicKey, e.awsKey))
+	awsFile := must(os.CreateTemp("", "verif-c03-aws-*.pem"))
+	awsFile.Write(pem.EncodeToMemory(&pem.Block{Type: "CERTIFICATE", Bytes: awsDER}))
+	awsFile.Close()
+	e.awsRoots = awsFile.Name()
 	e.k8sKey = must(ecdsa.GenerateKey(elliptic.P256(), rand.Reader))
 	k8sPub := pem.EncodeToMemory(&pem.Block{Type: "PUBLIC KEY", Bytes: must(x509.MarshalPKIXPublicKey(e.k8sKey.Public()))})
 	for _, ac := range authClaims {
 		provs := provisioner.List{
 			&provisioner.Nebula{Type: "Nebula", Name: "neb", Roots: pemNeb},
 			&provisioner.ACME{Type: "ACME", Name: "acme"},
+			e.awsProv("awsdcs", true, false),
+			e.awsProv("aws", false, true),
 			&provisioner.JWK{Type: "JWK", Name: "jwkwh", Key: &pub, Options: &provisioner.Options{Webhooks: []*provisioner.Webhook{
 				{ID: "wh-enrich", Name: "enrich", URL: e.srv.URL + "/wh/enrich", Kind: "ENRICHING", CertType: "X509", Secret: base64.StdEncoding.EncodeToString([]byte("secret"))},
 				{ID: "wh-authz", Name: "authz", URL: e.srv.URL + "/wh/authorize", Kind: "AUTHORIZING", CertType: "ALL", Secret: base64.StdEncoding.EncodeToString([]byte("secret"))},
@@ -321,11 +401,26 @@ func newEnv() (*env, error) {
 		for _, name := range []string{"jwkdis", "jwkc1", "jwkc2", "jwkc3", "jwkc4", "jwkc5"} {
 			provs = append(provs, &provisioner.JWK{Type: "JWK", Name: name, Key: &pub, Claims: provClaims[name].claims()})
 		}
-		ca, err := fixture.New(fixture.Opts{NoDB: true, Provisioners: provs, From: ca0, Claims: ac.claims()})
+		idx := len(e.cas)
+		if idx%2 == 1 {
+			for i := range provs {
+				provs[i] = roundTrip(provs[i])
+			}
+		}
+		o := fixture.Opts{NoDB: true, Provisioners: provs, From: ca0, Claims: ac.claims()}
+		if idx == adminIdx {
+			o.NoDB = false
+			o.Config = func(cfg *config.Config) { cfg.AuthorityConfig.EnableAdmin = true }
+		}
+		ca, err := fixture.New(o)
 		if err != nil {
-			return nil, err
+			return nil, fmt.Errorf("authority %d: %w", idx, err)
 		}
 		e.cas = append(e.cas, ca)
+		mux := chi.NewRouter()
+		api.Route(mux)
+		mux.Route("/1.0", func(rt chi.Router) { api.Route(rt) })
+		e.routers = append(e.routers, mux)
 	}
 	e.ca = e.cas[0]
 	raEnv, err := newRA(e, provisioner.List{
@@ -343,6 +438,7 @@ func newEnv() (*env, error) {
 }
 
 func (e *env) close() {
+	os.Remove(e.awsRoots)
 	if e.ra != nil {
 		e.ra.close()
 	}
@@ -407,6 +503,23 @@ func (e *env) token(k *Case, csr *x509.CertificateRequest) (string, error) {
 		base["iss"] = "neb"
 		base["aud"] = fixture.Audience("/1.0/sign") + "#nebula/neb"
 		return signJWT(h.key, "ES256", map[string]any{string(provisioner.NebulaCertHeader): must(h.crt.Marshal())}, base)
+	case "aws", "awsdcs":
+		// EC2 instance identity token: HS256 under the signature of the identity document it carries
+		e.awsSeq++
+		inst := fmt.Sprintf("i-%08d", e.awsSeq)
+		doc := must(json.Marshal(map[string]any{"accountId": "123456789012", "instanceId": inst, "privateIp": awsIP, "region": awsRegion,
+			"pendingTime": now.Add(-10 * time.Minute).UTC().Format(time.RFC3339), "imageId": "ami-1", "instanceType": "t2.micro", "version": "2017-09-30"}))
+		h := sha256.Sum256(doc)
+		sig := must(rsa.SignPKCS1v15(rand.Reader, e.awsKey, crypto.SHA256, h[:]))
+		sub := map[string]string{"inst": inst, "ip": awsIP, "dns": awsDNS()}[k.Sub]
+		if sub == "" {
+			sub = k.Sub
+		}
+		base["iss"], base["sub"], base["sans"] = "ec2.amazonaws.com", sub, []string{}
+		base["aud"] = fixture.Audience("/1.0/sign") + "#aws/" + k.Prov
+		base["amazon"] = map[string]any{"document": doc, "signature": sig}
+		e.awsSub = sub
+		return signJWT(sig, "HS256", nil, base)
 	case "k8ssa":
 		delete(base, "sans")
 		base["iss"] = "kubernetes/serviceaccount"
@@ -629,6 +742,16 @@ func (e *env) run(k *Case) (line, impl string, ok bool) {
 	}
 	ca := e.cas[k.Auth]
 	ac, pc := authClaims[k.Auth], provClaims[k.Prov]
+	viaField := ""
+	if k.Via == "api" {
+		if k.RA || k.Prov == "acme" {
+			return "", "", false
+		}
+		viaField = " via=api"
+		if raw, present := k.userData(); present && !json.Valid([]byte(raw)) {
+			viaField += " badbody=1"
+		}
+	}
 	raField := ""
 	if k.RA {
 		// RA mode: one authority, leaf-template provisioners only
@@ -661,6 +784,11 @@ func (e *env) run(k *Case) (line, impl string, ok bool) {
 		provName = provisioner.K8sSAName
 	case "acme":
 		genType, credID, mprov = provisioner.TypeACME, "", "acme"
+	case "aws", "awsdcs":
+		genType, credID, mprov = provisioner.TypeAWS, "123456789012", k.Prov
+		if k.Auth == adminIdx { // IIDRoots is not part of the admin-database form: the provisioner there checks against Amazon's certificates
+			return "", "", false
+		}
 	case "oidc":
 		genType, credID, mprov = provisioner.TypeOIDC, oidcClient, "oidc"
 		if k.Email != "" && sanitizeEmail(k.Email) == sanitizeEmail(adminEmail) {
@@ -669,7 +797,13 @@ func (e *env) run(k *Case) (line, impl string, ok bool) {
 	default:
 		return "", "", false
 	}
-	gen, err := (&provisioner.Extension{Type: genType, Name: provName, CredentialID: credID}).ToExtension()
+	var kv []string
+	subLine := k.Sub
+	if k.Prov == "aws" || k.Prov == "awsdcs" {
+		kv = []string{"InstanceID", fmt.Sprintf("i-%08d", e.awsSeq)}
+		subLine = e.awsSub
+	}
+	gen, err := (&provisioner.Extension{Type: genType, Name: provName, CredentialID: credID, KeyValuePairs: kv}).ToExtension()
 	if err != nil {
 		return "", "", false
 	}
@@ -677,10 +811,11 @@ func (e *env) run(k *Case) (line, impl string, ok bool) {
 	for i, s := range k.SANs {
 		sans[i] = san(s)
 	}
-	if (k.NoSANs && k.Prov != "acme") || k.Prov == "oidc" || k.Prov == "k8ssa" {
+	if (k.NoSANs && k.Prov != "acme") || k.Prov == "oidc" || k.Prov == "k8ssa" || k.Prov == "aws" || k.Prov == "awsdcs" {
 		sans = nil
 	}
 	nbn, nbi := "-", "-"
+	encCN := k.Sub
 	oem, oiss := "-", "-"
 	var tokNames []string
 	if k.Prov == "oidc" {
@@ -693,6 +828,10 @@ func (e *env) run(k *Case) (line, impl string, ok bool) {
 			oiss = san(iss.String())
 			tokNames = append(tokNames, iss.String())
 		}
+	} else if k.Prov == "aws" || k.Prov == "awsdcs" {
+		nbn, nbi = san(awsDNS()), xlist([]string{awsIP})
+		tokNames = []string{awsDNS(), awsIP}
+		encCN = csr.Subject.CommonName // the IID template takes the common name from the CSR
 	} else if k.Prov == "acme" {
 		tokNames = k.SANs
 	} else if k.Prov == "nebula" {
@@ -709,7 +848,7 @@ func (e *env) run(k *Case) (line, impl string, ok bool) {
 		}
 	}
 	cnf := map[string]string{"": "-", "ok": "1", "bad": "0", "garbage": "!"}[k.Cnf]
-	if k.Prov == "oidc" || k.Prov == "k8ssa" || k.Prov == "acme" {
+	if k.Prov == "oidc" || k.Prov == "k8ssa" || k.Prov == "acme" || k.Prov == "aws" || k.Prov == "awsdcs" {
 		cnf = "-"
 	}
 	var cips, curis []string
@@ -733,12 +872,12 @@ func (e *env) run(k *Case) (line, impl string, ok bool) {
 			return "", "", false
 		}
 	}
-	line = fmt.Sprintf("prov=%s tpl=%s adr=%s aex=%s aae=%s pdr=%s pex=%s pae=%s gen=%s sub=%s sans=%s cnf=%s oem=%s oiss=%s nbn=%s nbi=%s sig=%s ccn=%s cdns=%s cip=%s cem=%s curi=%s key=1 keyok=%s cext=%s ud=%s uext=%s uoth=%d uok=%s enct=%s encc=%s whe=%s wha=%s%s case=x%s",
-		mprov, c.B(k.Prov == "jwktpl"), tri(ac.DR), tri(ac.Ex), tri(ac.AE), tri(pc.DR), tri(pc.Ex), tri(pc.AE), c.XB(gen.Value), san(k.Sub), c.List(sans), cnf, oem, oiss, nbn, nbi,
+	line = fmt.Sprintf("prov=%s tpl=%s adr=%s aex=%s aae=%s pdr=%s pex=%s pae=%s conv=%s gen=%s sub=%s sans=%s cnf=%s oem=%s oiss=%s nbn=%s nbi=%s sig=%s ccn=%s cdns=%s cip=%s cem=%s curi=%s key=1 keyok=%s cext=%s ud=%s uext=%s uoth=%d uok=%s enct=%s encc=%s whe=%s wha=%s%s%s case=x%s",
+		mprov, c.B(k.Prov == "jwktpl"), tri(ac.DR), tri(ac.Ex), tri(ac.AE), tri(pc.DR), tri(pc.Ex), tri(pc.AE), c.B(!k.RA && (k.Auth%2 == 1 || k.Auth == adminIdx)), c.XB(gen.Value), san(subLine), c.List(sans), cnf, oem, oiss, nbn, nbi,
 		c.B(csr.CheckSignature() == nil), c.X(csr.Subject.CommonName), xlist(csr.DNSNames), xlist(cips), xlist(csr.EmailAddresses), xlist(curis),
 		c.B(keyok), extList(k.CExt), c.B(udPresent), extList(uexts), len(udRaw), c.B(uok),
-		c.B(encodable(k.Sub, tokNames)), c.B(encodableCert(csr.Subject.CommonName, csr.DNSNames, csr.IPAddresses, csr.EmailAddresses, csr.URIs)),
-		whe, wha, raField,
+		c.B(encodable(encCN, tokNames)), c.B(encodableCert(csr.Subject.CommonName, csr.DNSNames, csr.IPAddresses, csr.EmailAddresses, csr.URIs)),
+		whe, wha, raField, viaField,
 		hex.EncodeToString(must(json.Marshal(k))))
 
 	// ----- implementation
@@ -748,6 +887,34 @@ func (e *env) run(k *Case) (line, impl string, ok bool) {
 				out = "crash"
 			}
 		}()
+		if k.Via == "api" {
+			// POST /1.0/sign (or the legacy /sign) through the real router
+			body := map[string]any{"csr": string(pem.EncodeToMemory(&pem.Block{Type: "CERTIFICATE REQUEST", Bytes: csr.Raw})), "ott": tok}
+			if udPresent {
+				body["templateData"] = json.RawMessage(udRaw)
+			}
+			path := "/1.0/sign"
+			if len(k.Sub)%2 == 1 {
+				path = "/sign"
+			}
+			var rec *httptest.ResponseRecorder
+			if udPresent && !json.Valid([]byte(udRaw)) {
+				delete(body, "templateData")
+				b, _ := json.Marshal(body)
+				raw := string(b[:len(b)-1]) + `,"templateData":` + udRaw + "}"
+				rec = e.postRaw(k.Auth, ca, path, []byte(raw))
+			} else {
+				rec = e.post(k.Auth, ca, path, body)
+			}
+			if rec.Code != 201 {
+				return fmt.Sprintf("http:%d", rec.Code)
+			}
+			var resp api.SignResponse
+			if err := json.Unmarshal(rec.Body.Bytes(), &resp); err != nil || resp.ServerPEM.Certificate == nil {
+				return "http:201-unparsable"
+			}
+			return certLine(resp.ServerPEM.Certificate, csr)
+		}
 		ctx := provisioner.NewContextWithMethod(authority.NewContext(context.Background(), ca.Auth), provisioner.SignMethod)
 		var opts []provisioner.SignOption
 		var err error
@@ -788,7 +955,14 @@ func (e *env) run(k *Case) (line, impl string, ok bool) {
 			}
 			return fmt.Sprintf("refuse:%d", st)
 		}
-		crt := chain[0]
+		return certLine(chain[0], csr)
+	}()
+	return line, impl, true
+}
+
+// certLine prints what the property is about from a parsed certificate
+func certLine(crt *x509.Certificate, csr *x509.CertificateRequest) string {
+	{
 		var ips, uris []string
 		for _, ip := range crt.IPAddresses {
 			ips = append(ips, ip.String())
@@ -808,8 +982,7 @@ func (e *env) run(k *Case) (line, impl string, ok bool) {
 		}
 		return fmt.Sprintf("issue cn=%s dns=%s ip=%s em=%s uri=%s key=%d ext=%s",
 			c.X(crt.Subject.CommonName), xlist(crt.DNSNames), xlist(ips), xlist(crt.EmailAddresses), xlist(uris), keyID, extList(exts))
-	}()
-	return line, impl, true
+	}
 }
 
 func main() {
